@@ -438,6 +438,100 @@ def enc_defines(tab, nameid):
     return rows
 
 
+# ------------------------------------------------------------------ (f) names under every format override
+NAME_FIELDS = ["C_prefix", "C_memory_dtor_function", "C_array_type", "C_capsule_data_type", "F_array_type", "F_capsule_data_type",
+               "F_capsule_type", "F_capsule_final_function", "F_capsule_delete_function", "C_bufferify_suffix", "C_cfi_suffix",
+               "C_this", "F_C_prefix", "SH_shadow", "C_local", "CXX_local", "F_result", "F_result_capsule", "C_string_result_as_arg",
+               "C_result", "F_this", "F_derived_member", "cfi_prefix", "c_temp", "F_pointer", "F_result_ptr"]
+
+
+def probe_yaml():
+    """A library that pulls in every helper pair (capsule destructor, copy_string, copy_array, array_context, class
+    capsule) and whose user-settable name fields are all replaced by sentinels Qz<i>zQ: a name in its output IS its
+    template over those fields."""
+    import yaml
+    fmt = {k: "Qz%dzQ" % i for i, k in enumerate(NAME_FIELDS)}
+    d = dict(library="probe", language="c++", format=fmt, options=dict(wrap_python=False, wrap_lua=False),
+             declarations=[
+                 dict(decl="int *makeInts(int *len +intent(out)+hidden) +deref(pointer)+dimension(len)+owner(caller)"),
+                 dict(decl="const std::string & getName() +deref(allocatable)"),
+                 dict(decl="void fill(std::vector<int> &v +intent(out))"),
+                 dict(decl="void vin(const std::vector<double> &v, std::vector<int> &io)"),
+                 dict(decl="int sum(const int *a +rank(1), int n +implied(size(a)))"),
+                 dict(decl="void name(const char *s, char *o +intent(out)+charlen(20))"),
+                 dict(decl="class Cls", declarations=[dict(decl="Cls()"), dict(decl="~Cls()"), dict(decl="int get(int i)"),
+                                                      dict(decl="Cls *self2()")]),
+             ])
+    return yaml.safe_dump(d, sort_keys=False)
+
+
+def name_template(name, lit):
+    """'Qz0zQShroudCopyArray' -> [1000, lit('ShroudCopyArray')]"""
+    out = []
+    for part in re.split(r"(Qz\d+zQ)", name):
+        if not part:
+            continue
+        m = re.match(r"^Qz(\d+)zQ$", part)
+        out.append(1000 + int(m.group(1)) if m else lit(part))
+    return out
+
+
+def probe_names():
+    from tools import shroudrun
+    text = probe_yaml()
+    lits, rows_b, rows_d = {}, [], []
+
+    def lit(t):
+        if t not in lits:
+            lits[t] = len(lits) + 1
+            if lits[t] >= 1000:
+                raise TranslatorError("too many literal name parts")
+        return lits[t]
+    seen_helpers = set()
+    for cfi in (False, True):
+        d = common.scratch()
+        try:
+            y = os.path.join(d, "probe.yaml")
+            open(y, "w").write(text)
+            out = os.path.join(d, "out")
+            os.makedirs(out)
+            cfg, exc, _o = shroudrun.run_inproc([y], out, options=["F_CFI=%s" % ("true" if cfi else "false")])
+            if exc is not None:
+                raise TranslatorError("Shroud rejects the probe library with overridden name fields: %r" % (exc,))
+            defined, binds = set(), []
+            for fn in sorted(os.listdir(out)):
+                p = os.path.join(out, fn)
+                if fn.endswith((".h", ".hh", ".hpp")):
+                    pr, _st, _df = ip.parse_c_header(open(p).read())
+                    defined.update(pr)
+                elif fn.endswith((".c", ".cc", ".cpp")):
+                    defined.update(ip.parse_c_defs(open(p).read()))
+                elif fn.endswith((".f", ".F", ".f90")):
+                    ifaces, _t, _p = ip.parse_f_module(open(p).read())
+                    for it in ifaces:
+                        if it["bind"] is not None:
+                            binds.append((it["fname"], it["bind"]))
+            for fname, b in binds:
+                if "capsule_dtor" in fname or "copy_string" in fname or "copy_array" in fname:
+                    seen_helpers.add(re.sub(r"^.*(capsule_dtor|copy_string|copy_array).*$", r"\1", fname))
+                t = name_template(b, lit)
+                if t not in rows_b:
+                    rows_b.append(t)
+            for n in sorted(defined):
+                t = name_template(n, lit)
+                if t not in rows_d:
+                    rows_d.append(t)
+        finally:
+            common.rmtree(d)
+    missing = {"capsule_dtor", "copy_array"} - seen_helpers
+    if missing:
+        raise TranslatorError("the probe library did not pull in the helper interface(s) %s" % sorted(missing))
+    names = [None] * len(lits)
+    for k, v in lits.items():
+        names[v - 1] = k
+    return rows_b, rows_d, names, text
+
+
 # ------------------------------------------------------------------ render
 def _lst(items, per=12, ind="  "):
     out, line = [], []
@@ -532,6 +626,19 @@ def render(data):
     L.append(",\n".join("  (%s, [%s])" % (_tup(c), ", ".join(_tup(enc_ft(x)) for x in fs)) for _n, c, fs in data["rdecl"]))
     L.append("]")
     L.append("def resultDeclRowNames : List String := [" + ", ".join('"%s"' % r[0] for r in data["rdecl"]) + "]")
+    L.append("")
+    L.append("/-- names in the output of a probe library whose user-settable name format fields are sentinels: each name is a")
+    L.append("    template, a list of segments: n >= 1000 = format field (n - 1000) of probeFields, n < 1000 = literal part n of probeLits.")
+    L.append("    probeBindNames: the name= of every bind(C) interface body (wrappers and helpers, F_CFI off and on);")
+    L.append("    probeDefinedNames: every C function the generated headers declare or the generated sources define -/")
+    L.append("def probeBindNames : List (List Nat) := [")
+    L.append(_lst([str(list(t)) for t in data["probe_b"]], per=6))
+    L.append("]")
+    L.append("def probeDefinedNames : List (List Nat) := [")
+    L.append(_lst([str(list(t)) for t in data["probe_d"]], per=6))
+    L.append("]")
+    L.append("def probeFields : List String := [" + ", ".join('"%s"' % n for n in NAME_FIELDS) + "]")
+    L.append("def probeLits : List String := [" + ", ".join('"%s"' % n for n in data["probe_lits"]) + "]")
     L += ["", "end Shroud.Gen.Interop"]
     return "\n".join(L) + "\n"
 
@@ -567,6 +674,7 @@ def collect():
         if n not in nid:
             raise TranslatorError("ShroudTypeDefines refers to undefined %r" % n)
         return nid[n]
+    data["probe_b"], data["probe_d"], data["probe_lits"], data["probe_yaml"] = probe_names()
     data["definesC"] = enc_defines(cd, nameid)
     data["definesF"] = enc_defines(fd, nameid)
     data["defnames"] = names
@@ -583,7 +691,9 @@ def regenerate():
             "typemap_rows": len(data["typemap"]), "struct_pairs": [s[0] for s in data["structs"]],
             "helper_interfaces": len(data["hif"]), "defines_c": len(data["definesC"]), "defines_f": len(data["definesF"]),
             "decl_rows": len(data["decl"]), "result_decl_rows": len(data["rdecl"]), "changed": changed,
-            "disagreements": data.get("disagreements", [])[:200]}
+            "disagreements": data.get("disagreements", [])[:200],
+            "probe_bind_names": len(data["probe_b"]), "probe_defined_names": len(data["probe_d"]),
+            "probe_undefined": [t for t in data["probe_b"] if t not in data["probe_d"]], "probe_yaml": data["probe_yaml"]}
 
 
 if __name__ == "__main__":
